@@ -4,6 +4,6 @@ CONSTANTS
   Calls = {1, 2, 3}
   Tok = {1, 2, 3, 4, 5, 6, 7, 8, 9, 10, 11, 12}
   Cap = 2
-  Params = {1, 2, 3, 4, 5, 6, 7, 8, 9, 10, 11, 12, 13, 14, 15, 16, 17, 18}
+  Params = {1, 2, 3, 4, 5, 6, 7, 8, 9, 10, 11, 12, 13, 14, 15, 16, 17, 18, 19, 20, 21}
   MaxLen = 24
 CHECK_DEADLOCK FALSE
